@@ -257,6 +257,7 @@ pub fn params_for(rng: &mut Rng, thorough: bool, i: usize) -> TxwParams {
         gen: GenOpts::default(),
         replicas: 0,
         stagger_ms: 0,
+        hc_stall: i % 4 == 1,
     }
 }
 
